@@ -446,8 +446,11 @@ def expand_module(tree: ast.Module, modname: str) -> Tuple[int, List[str]]:
         return 0, []  # no vocabulary available: expanding everything would change what the rules were written against
     # a module the rules never saw has no anchors: all of its helpers may be expanded
     known = kf.get(modname, set())
+    nc = propagate_new_constants(tree, modname)
     te = TableEvaluator(tree)
-    nt = te.run()
+    nt = te.run() + nc
+    if nc:
+        te.sites.append(f"{nc} function(s) with new named constants replaced by their literals")
     ex = Expander(tree, modname, known)
     n = ex.run()
     return n + nt, te.sites + ex.sites
@@ -734,3 +737,75 @@ class TableEvaluator:
                         for b in m.body:
                             ast.fix_missing_locations(b)
         return self.count
+
+
+# ======================================================================================================================
+# Named constants introduced after the rules were written (`UNREPORTED_MSG_TYPES = frozenset((...))`,
+# `SHARED_NAMESPACES = ("constants", ...)`): a reference to such a name is replaced by the literal it denotes, so that a
+# rule comparing literals keeps seeing them.  Only immutable literals (tuples / frozensets of pure elements, numbers,
+# strings) bound exactly once at module or class level and never assigned through `self.` are propagated.
+# ======================================================================================================================
+def _literal_value(v) -> Optional[ast.expr]:
+    if isinstance(v, ast.Constant):
+        return v
+    if isinstance(v, ast.Tuple) and all(_pure(e) or _literal_value(e) is not None for e in v.elts):
+        return v
+    if isinstance(v, ast.Call) and isinstance(v.func, ast.Name) and v.func.id in ("frozenset", "tuple") and len(v.args) == 1 and not v.keywords:
+        inner = v.args[0]
+        if isinstance(inner, (ast.Tuple, ast.List, ast.Set)) and all(_pure(e) for e in inner.elts):
+            return ast.copy_location(ast.Tuple(elts=list(inner.elts), ctx=ast.Load()), v)
+    return None
+
+
+def propagate_new_constants(tree: ast.Module, modname: str) -> int:
+    kf = known_functions()
+    known = kf.get(modname, set())
+    if not kf:
+        return 0
+    count = 0
+    attr_stores = {n.attr for n in ast.walk(tree) if isinstance(n, ast.Attribute) and isinstance(n.ctx, (ast.Store, ast.Del))}
+    # module level
+    mod_consts: Dict[str, ast.expr] = {}
+    names_assigned: Dict[str, int] = {}
+    for st in tree.body:
+        tg = st.targets if isinstance(st, ast.Assign) else ([st.target] if isinstance(st, ast.AnnAssign) and st.value is not None else [])
+        for x in tg:
+            if isinstance(x, ast.Name):
+                names_assigned[x.id] = names_assigned.get(x.id, 0) + 1
+                lv = _literal_value(st.value)
+                if lv is not None and f"={x.id}" not in known and isinstance(lv, ast.Tuple):
+                    mod_consts[x.id] = lv
+    mod_consts = {k: v for k, v in mod_consts.items() if names_assigned.get(k) == 1}
+    # a module constant is only propagated where no local of the same name exists
+    for cls_or_fn in ast.walk(tree):
+        if isinstance(cls_or_fn, (ast.FunctionDef, ast.AsyncFunctionDef)) and mod_consts:
+            local_stores = {n.id for n in ast.walk(cls_or_fn) if isinstance(n, ast.Name) and isinstance(n.ctx, (ast.Store, ast.Del))} | {a.arg for a in cls_or_fn.args.posonlyargs + cls_or_fn.args.args + cls_or_fn.args.kwonlyargs}
+            use = {k: v for k, v in mod_consts.items() if k not in local_stores}
+            if use and any(isinstance(n, ast.Name) and n.id in use for n in ast.walk(cls_or_fn)):
+                sub = _Subst(names=use)
+                cls_or_fn.body = [sub.visit(b) for b in cls_or_fn.body]
+                count += 1
+    # class level
+    for cls in [c for c in tree.body if isinstance(c, ast.ClassDef)]:
+        consts: Dict[str, ast.expr] = {}
+        for st in cls.body:
+            tg = st.targets if isinstance(st, ast.Assign) else ([st.target] if isinstance(st, ast.AnnAssign) and st.value is not None else [])
+            for x in tg:
+                if isinstance(x, ast.Name):
+                    lv = _literal_value(st.value)
+                    if lv is not None and isinstance(lv, ast.Tuple) and f"={cls.name}.{x.id}" not in known and x.id not in attr_stores:
+                        consts[x.id] = lv
+        if not consts:
+            continue
+        exprs = {}
+        for k, v in consts.items():
+            for recv in ("self", "cls", cls.name):
+                exprs[f"{recv}.{k}"] = v
+        for m in [m for m in cls.body if isinstance(m, ast.FunctionDef)]:
+            if any(isinstance(n, ast.Attribute) and n.attr in consts for n in ast.walk(m)):
+                sub = _Subst(exprs=exprs)
+                m.body = [sub.visit(b) for b in m.body]
+                count += 1
+    if count:
+        ast.fix_missing_locations(tree)
+    return count
